@@ -401,11 +401,11 @@ theorem Inv_publish {s s' : St} {t0 : Nat} {p' : Pc} (hi : Inv s)
     (ht0 : t0 < s.cfg.W) (hh : s.holder = some t0)
     (c1 : inCS p' = true) (r1 : inRM p' = inRM (s.pc t0))
     (hslot : s.blocks (s.accepted.length % s.cfg.cap) = some ⟨t0, s.k t0⟩)
-    (hroom : Room s.cfg.cap s.accepted.length s.delivered.length s.cachedObs s.cfg.rm)
+    (hroom1 : s.accepted.length + 1 ≤ s.delivered.length + (s.cfg.cap - 2))
+    (hroom2 : s.cfg.rm = .busy → s.accepted.length + 1 ≤ s.cachedObs + (s.cfg.cap - 2))
     (hnew : ∀ n A D o c rm sl m, WLoc n A D o c rm sl m p') : Inv s' := by
   obtain ⟨e1, e2, e3, e4, e5, e6, e7, e8, e10, e11, e12, e13, e14⟩ := hr
   obtain ⟨hv, h1, h2, h3, h4, h5, h6, h7, h8, h9, h10, h11, h12, h13, h14⟩ := hi
-  obtain ⟨hroom1, hroom2⟩ := hroom
   simp only [] at e1 e2 e3 e4 e5 e6 e7 e8 e10 e11 e12 e13 e14
   refine Inv.mk ?valid ?hold ?lock0 ?rmo ?wc_eq ?rc_eq ?le1 ?le2 ?slots ?cachedOk ?wloc ?rloc ?fifo ?fullsOk ?ow
   all_goals simp only [e1, e3, e4, e5, e6, e7, e8, e11, e12, e13, e14, hwc, hacc, hobs, hpc', hk, cur,
@@ -586,7 +586,7 @@ theorem w_sRdW (rpos : Nat) (hpc : s.pc tok.tid = .sRdW rpos) (ht : tok.tid < s.
     have hA : ¬ s.accepted.length = s.obs tok.tid + (s.cfg.cap - 2) := fun e => hne (by rw [hr]; exact hfull.2 e)
     exact Inv_move_in hi (by same_ring) rfl rfl ht hh rfl (by simp [hpc, inRM]) (by
       simp only [WLoc, Room]
-      refine ⟨trivial, by omega, ?_⟩
+      refine ⟨trivial, by omega, ?_, by rw [hm]; simp⟩
       intro hb; rw [hm] at hb; cases hb)
 
 
@@ -601,9 +601,9 @@ theorem w_cWrB (wpos idx : Nat) (hpc : s.pc tok.tid = .cWrB wpos idx) (ht : tok.
 theorem w_cSt (wpos : Nat) (hpc : s.pc tok.tid = .cSt wpos) (ht : tok.tid < s.cfg.W)
     (hi : Inv s) (h : wstep s tok.tid = some (s', ev)) : Inv s' := by
   holder_facts; open_step; obtain ⟨rfl, -⟩ := h
-  obtain ⟨hw1, hw2, hw3⟩ := hw
+  obtain ⟨hw1, hw2, hw3, hw4, -⟩ := hw
   refine Inv_via_unlock .ok ht ?_
-  exact Inv_publish hi (by same_ring) hw1 rfl rfl rfl rfl ht hh rfl (by simp [hpc, inRM]) hw2 hw3
+  exact Inv_publish hi (by same_ring) hw1 rfl rfl rfl rfl ht hh rfl (by simp [hpc, inRM]) hw2 hw3 hw4
     (by intros; simp [WLoc])
 
 /-! ### `muggle_channel_write_busy` -/
@@ -625,7 +625,7 @@ theorem w_bRdC (wpos : Nat) (hpc : s.pc tok.tid = .bRdC wpos) (ht : tok.tid < s.
     have hA : ¬ s.accepted.length = s.cachedObs + (s.cfg.cap - 2) :=
       fun e => hne (by rw [hwp, hc1]; exact hfull.2 e)
     exact Inv_move_in hi (by same_ring) rfl rfl ht hh rfl (by simp [hpc, inRM])
-      (by simp only [WLoc, Room]; exact ⟨hwp, by omega, fun _ => by omega⟩)
+      (by simp only [WLoc, Room]; exact ⟨hwp, by omega, fun _ => by omega, by rw [hm]; simp⟩)
   next =>
     exact Inv_move_in hi (by same_ring) rfl rfl ht hh rfl (by simp [hpc, inRM])
       (by simp only [WLoc]; exact ⟨hm, hwp⟩)
@@ -654,7 +654,7 @@ theorem w_bRdC2 (wpos : Nat) (hpc : s.pc tok.tid = .bRdC2 wpos) (ht : tok.tid < 
     have hA : ¬ s.accepted.length = s.cachedObs + (s.cfg.cap - 2) :=
       fun e => hne (by rw [hwp, hc1]; exact hfull.2 e)
     exact Inv_move_in hi (by same_ring) rfl rfl ht hh rfl (by simp [hpc, inRM])
-      (by simp only [WLoc, Room]; exact ⟨hwp, by omega, fun _ => by omega⟩)
+      (by simp only [WLoc, Room]; exact ⟨hwp, by omega, fun _ => by omega, by rw [hm]; simp⟩)
   next heq =>
     have heq' : wpos = s.cached := Classical.not_not.1 heq
     have hA : s.accepted.length = s.cachedObs + (s.cfg.cap - 2) := hfull.1 (by rw [← hwp, heq', hc1])
@@ -713,7 +713,7 @@ theorem w_mWrW (wpos : Nat) (hpc : s.pc tok.tid = .mWrW wpos) (ht : tok.tid < s.
   holder_facts; open_step; obtain ⟨rfl, -⟩ := h
   obtain ⟨hm, hw1, hw2, hw3⟩ := hw
   exact Inv_publish hi (by same_ring) hw1 rfl rfl rfl rfl ht hh rfl (by simp [hpc, inRM]) hw2
-    ⟨hw3, fun hb => by rw [hm] at hb; cases hb⟩ (by intros; simp [WLoc])
+    hw3 (fun hb => by rw [hm] at hb; cases hb) (by intros; simp [WLoc])
 
 theorem w_mUnlock (r : Ret) (hpc : s.pc tok.tid = .mUnlock r) (ht : tok.tid < s.cfg.W)
     (hi : Inv s) (h : wstep s tok.tid = some (s', ev)) : Inv s' := by
